@@ -1,5 +1,6 @@
 import GdslModel.Lemmas.SyncSingle
 import GdslModel.Lemmas.SyncSeq
+import GdslModel.Lemmas.SyncTraverse
 /-!
 # C15 — sync flavours are drop-in replacements in single-threaded code
 The plain flavours *are* the functions of `Model/Store.lean` (`Di.step`, `Un.step`, the observers);
@@ -45,5 +46,46 @@ theorem Sync.query_refines {R : Type} (u : K) (f : Adj K E → R) (s : Store K E
 theorem Sync.iter_next_refines (u : K) (sel : Adj K E → List (K × E)) (pos : Nat) (s : Store K E) (fuel : Nat) (hf : 4 ≤ fuel) :
     runSingle fuel (Sync.iterNext u sel pos) s [] [] = some (s, (sel (s.get u))[pos]?, [(.node u, .r, 0)]) :=
   Sync.query_refines' u _ s [] (by simp [canAcquire]) fuel hf
+
+/-! ### traversals of the sync flavours, run alone
+`Sync.bfsProg` / `Sync.dfsProg` / `Sync.preProg` are the traversals of the sync flavours written as lock programs
+(one `iterNext` per step; they are what runs concurrently with mutators in C17). Run alone they never block, leave
+the store untouched and return what the traversal of `Model/Search.lean` - the model of the plain flavour - returns
+on the same lists: `sel` picks the list the iterator reads, so `fun k => sel (s.get k)` is the static adjacency. -/
+
+/-- breadth-first `search()` -/
+theorem Sync.bfs_alone_refines (sel : Adj K E → List (K × E)) (s : Store K E) (root : K) (tgt : Option K) (fuel : Nat)
+    (res : Option K) (run : Run K E)
+    (h : searchNode (fun k => sel (s.get k)) (fun _ _ _ => true) (fun _ => 0) .bfs root tgt fuel = some (res, run)) :
+    ∃ n tr, ∀ f1 f2, n ≤ f1 → n ≤ f2 →
+      runSingle f1 (Sync.bfsProg sel tgt f2 none [root] [root]) s [] [] = some (s, res, tr) :=
+  Sync.bfs_alone_refines' sel s root tgt fuel res run h
+
+/-- depth-first `search()` -/
+theorem Sync.dfs_alone_refines (sel : Adj K E → List (K × E)) (s : Store K E) (root : K) (tgt : Option K) (fuel : Nat)
+    (res : Option K) (run : Run K E)
+    (h : searchNode (fun k => sel (s.get k)) (fun _ _ _ => true) (fun _ => 0) .dfs root tgt fuel = some (res, run)) :
+    ∃ n tr, ∀ f1 f2, n ≤ f1 → n ≤ f2 →
+      runSingle f1 (Sync.dfsProg sel tgt f2 [(root, 0)] [root]) s [] [] = some (s, res, tr) :=
+  Sync.dfs_alone_refines' sel s root tgt fuel res run h
+
+/-- the preorder (`search_nodes`) -/
+theorem Sync.pre_alone_refines (sel : Adj K E → List (K × E)) (s : Store K E) (root : K) (fuel : Nat)
+    (ns : List K) (ts : TSt K E)
+    (h : orderNodes (fun k => sel (s.get k)) (fun _ _ _ => true) false root fuel = some (ns, ts)) :
+    ∃ n tr, ∀ f1 f2, n ≤ f1 → n ≤ f2 →
+      runSingle f1 (Sync.preProg sel f2 [(root, 0)] [root] [root]) s [] [] = some (s, ns, tr) :=
+  Sync.pre_alone_refines' sel s root fuel ns ts h
+
+/-- the serialised form depends on the container's iteration order only through a permutation of the two lists
+    ("serialised form up to container order") -/
+theorem Serde.decompose_perm {N : Type} (s : Store K E) (nval : K → N) (π π' : List K) (h : π.Perm π') :
+    (decompose s nval π).1.Perm (decompose s nval π').1 ∧ (decompose s nval π).2.Perm (decompose s nval π').2 :=
+  Serde.decompose_perm' s nval π π' h
+
+example : ∃ n tr, ∀ f1 f2, n ≤ f1 → n ≤ f2 →
+    runSingle f1 (Sync.bfsProg (E := Nat) (·.out) (some 2) f2 none [0] [0]) (connect (connect {} 0 1 5) 1 2 6) [] [] =
+      some (connect (connect {} 0 1 5) 1 2 6, some 2, tr) :=
+  Sync.bfs_alone_refines (·.out) _ 0 (some 2) 10 (some 2) _ (by rfl)
 
 end G
